@@ -253,7 +253,15 @@ class World:
         if rt.faults.get(key):
             fault = rt.faults[key].pop(0)
         task.logger.info(f'tcv {key} gen{gen} begin')
-        task.save_to_run_info({'tcv': key, 'gen': gen, 'seq': 0})
+        if self.desc.get('_rich_records'):
+            # records of different length per generation (a rewrite that does not truncate shows), a message from a helper thread of run()
+            task.save_to_run_info({'tcv': key, 'gen': gen, 'seq': 0, 'pad': rich_pad(gen)})
+            import threading
+            th = threading.Thread(target=lambda: task.logger.info(f'tcv {key} gen{gen} helper'))
+            th.start()
+            th.join()
+        else:
+            task.save_to_run_info({'tcv': key, 'gen': gen, 'seq': 0})
         if fault == 'raise':
             raise Fault(f'{key} raise')
         style = t.get('run', 'registry')
@@ -730,6 +738,10 @@ def _dump(payload, path):
     if str(path).endswith('.yaml'):
         return yaml.safe_dump(payload, sort_keys=False)
     return json.dumps(payload, indent=1)
+
+
+def rich_pad(gen):
+    return 'x' * (80, 2, 30, 0)[gen % 4]
 
 
 def jsonable(v):
